@@ -53,6 +53,22 @@ def extra_files():
         ['preamble', 'only a preamble\nsecond line\n', None, 4, None,
          None]], 'utf-8')
     out.append(('preamble-last', b))
+    # foreign producer: content headers carry the minimum (length, and the
+    # type of a binary diff), as in the specification's own examples
+    bin_ = b'delta 14\nzcmZ?wbhEHbabc\nxyz\x00\xff\r\nmore\n\nlast line\n'
+    txt = b'first line\nsecond line\nthird\n'
+    js = b'{"path": "f"}\n'
+    out.append(('foreign-minimal',
+                b'#diffx: version=1.0\n'
+                b'#.preamble: length=%d\n%s'
+                b'#.change:\n#..file:\n#...meta: length=%d\n%s'
+                b'#...diff: length=%d, type=binary\n%s'
+                b'#..file:\n#...meta: length=%d\n%s'
+                b'#...diff: length=%d, type=text\n%s'
+                b'#..file:\n#...meta: format=json, length=%d\n%s'
+                b'#...diff: length=%d\n%s'
+                % (len(txt), txt, len(js), js, len(bin_), bin_, len(js), js,
+                   len(txt), txt, len(js), js, len(bin_), bin_)))
     return out
 
 
